@@ -987,7 +987,16 @@ func callBuiltin(caller *frame, callpos token.Pos, fn *ssa.Builtin, args []value
 		}
 		// append([]T, ...[]T) []T
 		a0 := args[0].([]value)
-		r := append(a0, args[1].([]value)...)
+		a1src := args[1].([]value)
+		if needsDeepCopy(a1src) {
+			// elements of struct/array type are values: the appended slots must not alias the source
+			cp := make([]value, len(a1src))
+			for k := range a1src {
+				cp[k] = copyVal(a1src[k])
+			}
+			a1src = cp
+		}
+		r := append(a0, a1src...)
 		if f := caller.i.p.foot; f != nil && f.cur != 0 {
 			f.site = caller.fn.String()
 			a1 := args[1].([]value)
@@ -1025,6 +1034,23 @@ func callBuiltin(caller *frame, callpos token.Pos, fn *ssa.Builtin, args []value
 			src = conv(params.At(0).Type(), params.At(1).Type(), src)
 		}
 		dstS, srcS := args[0].([]value), src.([]value)
+		if needsDeepCopy(srcS) {
+			n := len(dstS)
+			if len(srcS) < n {
+				n = len(srcS)
+			}
+			tmp := make([]value, n)
+			for k := 0; k < n; k++ {
+				tmp[k] = copyVal(srcS[k])
+			}
+			if f := caller.i.p.foot; f != nil && f.cur != 0 {
+				for k := 0; k < n; k++ {
+					f.read(&srcS[k])
+					f.write(&dstS[k])
+				}
+			}
+			return copy(dstS, tmp)
+		}
 		if f := caller.i.p.foot; f != nil && f.cur != 0 {
 			n := len(dstS)
 			if len(srcS) < n {
@@ -1562,4 +1588,35 @@ func fandbits[F floaty](x, y F) F {
 		*(*uint64)(unsafe.Pointer(&x)) &= *(*uint64)(unsafe.Pointer(&y))
 	}
 	return x
+}
+
+// needsDeepCopy reports whether the slice holds struct or array values (which the
+// interpreter represents by reference and Go copies by value).
+func needsDeepCopy(s []value) bool {
+	if len(s) == 0 {
+		return false
+	}
+	switch s[0].(type) {
+	case structure, array:
+		return true
+	}
+	return false
+}
+
+func copyVal(v value) value {
+	switch x := v.(type) {
+	case structure:
+		c := make(structure, len(x))
+		for k := range x {
+			c[k] = copyVal(x[k])
+		}
+		return c
+	case array:
+		c := make(array, len(x))
+		for k := range x {
+			c[k] = copyVal(x[k])
+		}
+		return c
+	}
+	return v
 }
